@@ -128,6 +128,30 @@ class NumEval:
                     if hi is not None and self.dom.le(k, hi) and self.dom.le(hi, k):
                         hi = hi - B(1)
                 continue
+            if isinstance(c, tuple) and c and c[0] == "call" and str(c[1]).rsplit("::", 1)[-1] in ("is_negative", "is_positive") and c[2] and c[2][0] == t and f[2] in (0, 1):
+                # x.is_negative() is x < 0, x.is_positive() is x > 0
+                truth = (f[0] == "eq") == bool(f[2])
+                if str(c[1]).endswith("is_negative"):
+                    if truth and self._better_hi(B(-1), hi):
+                        hi = B(-1)
+                    elif not truth and self._better_lo(B(0), lo):
+                        lo = B(0)
+                else:
+                    if truth and self._better_lo(B(1), lo):
+                        lo = B(1)
+                    elif not truth and self._better_hi(B(0), hi):
+                        hi = B(0)
+                continue
+            if isinstance(c, tuple) and c and c[0] == "discr" and isinstance(c[1], tuple) and c[1] and c[1][0] == "call" and str(c[1][1]).endswith("::checked_sub") and len(c[1][2]) >= 2 and c[1][2][0] == t and f[2] in (0, 1):
+                # x.checked_sub(y) is Some exactly when x >= y
+                some = (f[0] == "eq") == (f[2] == 1)
+                ylo, yhi = self._partner(c[1][2][1])
+                if ylo is not None:
+                    if some and self._better_lo(ylo, lo):
+                        lo = ylo
+                    elif not some and self._better_hi(yhi - B(1), hi):
+                        hi = yhi - B(1)
+                continue
             if isinstance(c, tuple) and c and c[0] == "bin" and c[1] in ("Eq", "Ne"):
                 # disequality at an end point of the interval tightens it
                 truth = (f[0] == "eq") == bool(f[2])
@@ -170,6 +194,62 @@ class NumEval:
                     lo = ylo
         return lo, hi
 
+    def _linear(self, t, sign, atoms, const):
+        """flatten a +/- chain into atom coefficients and a constant (None when a coefficient other than +-1 arises)"""
+        if isinstance(t, tuple) and t and t[0] == "bin" and t[1] in ("Add", "Sub"):
+            const = self._linear(t[2], sign, atoms, const)
+            if const is None:
+                return None
+            return self._linear(t[3], sign if t[1] == "Add" else -sign, atoms, const)
+        if isinstance(t, tuple) and t and t[0] == "int":
+            return const + (B(t[1]) if sign > 0 else -B(t[1]))
+        if t == self.sym:
+            return const + (B(0, 1) if sign > 0 else -B(0, 1))
+        atoms[t] = atoms.get(t, 0) + sign
+        return const
+
+    def _relational(self, t):
+        """x - y (+ constants) under a path fact that orders x and y: the difference is bounded by the fact, not only by the
+        two intervals (`if a >= b { a - b } else { a + M - b }`)"""
+        atoms = {}
+        const = self._linear(t, 1, atoms, B(0))
+        if const is None:
+            return None
+        atoms = {a: c for a, c in atoms.items() if c != 0}
+        pos = [a for a, c in atoms.items() if c == 1]
+        neg = [a for a, c in atoms.items() if c == -1]
+        if len(pos) != 1 or len(neg) != 1 or len(atoms) != 2:
+            return None
+        x, y = pos[0], neg[0]
+        xlo, xhi = self._partner(x)
+        ylo, yhi = self._partner(y)
+        if None in (xlo, xhi, ylo, yhi):
+            return None
+        dlo, dhi = xlo - yhi, xhi - ylo
+        found = False
+        for f in self.facts:
+            c = f[1]
+            if f[0] not in ("eq", "ne") or not (isinstance(c, tuple) and c and c[0] == "bin" and c[1] in ("Lt", "Le", "Gt", "Ge") and f[2] in (0, 1)):
+                continue
+            truth = (f[0] == "eq") == bool(f[2])
+            op = c[1] if truth else {"Lt": "Ge", "Le": "Gt", "Gt": "Le", "Ge": "Lt"}[c[1]]
+            if (c[2], c[3]) == (y, x):
+                op = {"Lt": "Gt", "Le": "Ge", "Gt": "Lt", "Ge": "Le"}[op]
+            elif (c[2], c[3]) != (x, y):
+                continue
+            found = True
+            if op == "Ge" and self._better_lo(B(0), dlo):
+                dlo = B(0)
+            elif op == "Gt" and self._better_lo(B(1), dlo):
+                dlo = B(1)
+            elif op == "Le" and self._better_hi(B(0), dhi):
+                dhi = B(0)
+            elif op == "Lt" and self._better_hi(B(-1), dhi):
+                dhi = B(-1)
+        if not found:
+            return None
+        return (dlo + const, dhi + const)
+
     def _partner(self, y):
         """interval of the other side of a comparison fact: obligations met while evaluating it are not
         recorded here (the term is evaluated in its own right wherever the program computes it)"""
@@ -209,7 +289,14 @@ class NumEval:
                 blo, bhi = self.interval(t[3])
                 if None in (alo, ahi, blo, bhi):
                     return (None, None)
-                return (alo + blo, ahi + bhi) if op == "Add" else (alo - bhi, ahi - blo)
+                lo, hi = (alo + blo, ahi + bhi) if op == "Add" else (alo - bhi, ahi - blo)
+                rel = self._relational(t)
+                if rel is not None:
+                    if self._better_lo(rel[0], lo):
+                        lo = rel[0]
+                    if self._better_hi(rel[1], hi):
+                        hi = rel[1]
+                return (lo, hi)
             if op == "Mul":
                 alo, ahi = self.interval(t[2])
                 blo, bhi = self.interval(t[3])
@@ -238,6 +325,15 @@ class NumEval:
                 if self.dom.le(B(0), alo) and self.dom.le(B(1), blo):
                     return (B(0), ahi)
                 return (None, None)
+        cs = self._checked_sub_payload(t)
+        if cs is not None:
+            # the payload of x.checked_sub(y) is x - y, and it exists only when x >= y
+            alo, ahi = self.interval(cs[0])
+            blo, bhi = self.interval(cs[1])
+            if None in (alo, ahi, blo, bhi):
+                return (None, None)
+            lo = alo - bhi
+            return (lo if self.dom.le(B(0), lo) else B(0), ahi - blo)
         if h == "call":
             for suf, fn in self.summaries.items():
                 if str(t[1]).endswith(suf):
@@ -267,6 +363,10 @@ class NumEval:
         h = t[0]
         if h == "int":
             return Poly.const(t[1])
+        cs = self._checked_sub_payload(t)
+        if cs is not None:
+            a, b = self.cong(cs[0]), self.cong(cs[1])
+            return None if a is None or b is None else a - b
         if h == "cast" and t[1] == "IntToInt":
             # only meaningful when the cast is value-preserving (obligation recorded by interval())
             return self.cong(t[3])
@@ -293,6 +393,14 @@ class NumEval:
                 return self.cong(t[2][0])
             if nm.endswith("::from") and len(t[2]) >= 1 and self._is_int_conv(t):
                 return self.cong(t[2][0])
+        return None
+
+    def _checked_sub_payload(self, t):
+        """(x, y) when t is the Some-payload of x.checked_sub(y)"""
+        if isinstance(t, tuple) and len(t) == 3 and t[0] == "proj" and t[1] == 0 and isinstance(t[2], tuple) and t[2] and t[2][0] == "down" and t[2][2] == 1:
+            c = t[2][1]
+            if isinstance(c, tuple) and c and c[0] == "call" and str(c[1]).endswith("::checked_sub") and len(c[2]) >= 2:
+                return c[2][0], c[2][1]
         return None
 
     def _strip_conv(self, d):
